@@ -124,6 +124,8 @@ pub struct Report {
     pub sets: BTreeMap<String, BTreeSet<u64>>,
     pub notes: Vec<String>,
     pub stopped_by_time: bool,
+    /// (case, plan hash, layout hash) rows for cross-process comparison
+    pub table: Vec<(u64, u64, u64)>,
 }
 
 impl Report {
@@ -143,6 +145,7 @@ impl Report {
             sets: BTreeMap::new(),
             notes: Vec::new(),
             stopped_by_time: false,
+            table: Vec::new(),
         }
     }
 
@@ -229,6 +232,7 @@ impl Report {
             .set("sets", sets)
             .set("notes", J::Arr(self.notes.iter().map(|n| J::Str(n.clone())).collect()))
             .set("stopped_by_time", self.stopped_by_time)
+            .set("table", J::Arr(self.table.iter().map(|(c, p, l)| J::Arr(vec![J::from(*c), hex(*p), hex(*l)])).collect()))
             .set("wall_s", self.start.elapsed().as_secs_f64())
     }
 
